@@ -62,6 +62,99 @@ def _lb():
     return loopback
 
 
+# ----------------------------------------------------------------------------------------------------------------
+# translator: lock discipline of reload_all / _pre_check_report_ok from a dynamic trace -> Generated/ConsumerLocks.lean
+
+
+def trace_lock_programs():
+    """Run reload_all and _pre_check_report_ok of a real ConsumerMdib (no network: Get service stubbed with the content of
+    a ProviderMdib) with a traced buffer lock, traced reads / writes of `_state` and a traced buffer list."""
+    from types import SimpleNamespace
+
+    from lxml import etree
+    from sdc11073.consumer.consumerimpl import SdcConsumer
+    from sdc11073.definitions_sdc import SdcV1Definitions
+    from sdc11073.mdib import ConsumerMdib, ProviderMdib
+    from sdc11073.mdib.consumermdib import ConsumerMdibState
+    from sdc11073.pysoap.msgreader import MdibVersionGroupReader
+    repo = os.environ.get('VERIF_REPO', '/repo')
+    prov = ProviderMdib.from_mdib_file(os.path.join(repo, 'tests', 'mdib_two_mds.xml'))
+    consumer = SdcConsumer('http://127.0.0.1:9/none', sdc_definitions=SdcV1Definitions, ssl_context_container=None,
+                           validate=False)
+    log = []
+
+    class Stub:
+        @staticmethod
+        def get_mdib():
+            node, mvg = prov.reconstruct_mdib_with_context_states()
+            result = consumer.msg_reader.read_get_mdib_payload(etree.fromstring(etree.tostring(node)))  # noqa: S320
+            return SimpleNamespace(result=result, mdib_version_group=MdibVersionGroupReader(
+                mvg.mdib_version, mvg.sequence_id, mvg.instance_id))
+
+        @staticmethod
+        def get_context_states():
+            return SimpleNamespace(result=SimpleNamespace(ContextState=[]))
+    consumer._service_clients['Get'] = Stub  # noqa: SLF001
+    consumer._service_clients['Context'] = Stub  # noqa: SLF001
+    mdib = ConsumerMdib(consumer)
+
+    class TracedLock:
+        def __init__(self, real):
+            self.real = real
+
+        def __enter__(self):
+            self.real.acquire()
+            log.append('acq')
+            return self
+
+        def __exit__(self, *exc):
+            log.append('rel')
+            self.real.release()
+            return False
+
+    class TracedList(list):
+        def append(self, x):
+            log.append('append')
+            super().append(x)
+
+    class Traced(type(mdib)):
+        def __getattribute__(self, name):
+            if name == '_state':
+                log.append('read')
+            return super().__getattribute__(name)
+
+        def __setattr__(self, name, value):
+            if name == '_state':
+                log.append('write:' + value.name)
+            super().__setattr__(name, value)
+    mdib._buffered_notifications_lock = TracedLock(mdib._buffered_notifications_lock)  # noqa: SLF001
+    mdib._buffered_notifications = TracedList()  # noqa: SLF001
+    mdib.__class__ = Traced
+    mdib.reload_all()
+    reload_trace, log[:] = list(log), []
+    mdib._state = ConsumerMdibState.initializing  # noqa: SLF001
+    log[:] = []
+    mdib._pre_check_report_ok(MdibVersionGroupReader(1, 'urn:uuid:trace', None), object(), lambda *a: None)  # noqa: SLF001
+    return reload_trace, list(log)
+
+
+def lean_trace(acts):
+    m = {'acq': '.acq', 'rel': '.rel', 'read': '.readState', 'append': '.append', 'write:initializing': '.writeState .initializing',
+         'write:initialized': '.writeState .initialized', 'write:invalid': '.writeState .invalid'}
+    return '[' + ', '.join(m[a] for a in acts) + ']'
+
+
+def translate(ctx):
+    reload_trace, precheck_trace = trace_lock_programs()
+    src = ('import SdcModel.Consumer\n/-! generated by harness/props/c06.py (translate): dynamic traces of ConsumerMdib.reload_all and\n'
+           'ConsumerMdib._pre_check_report_ok (state `initializing`): buffer lock, reads / writes of `_state`, buffer appends -/\n'
+           'namespace Sdc.Generated\nopen Sdc.Consumer\n'
+           f'def reloadAllTrace : List LockAct := {lean_trace(reload_trace)}\n'
+           f'def preCheckTrace : List LockAct := {lean_trace(precheck_trace)}\n'
+           'end Sdc.Generated\n')
+    core.write_if_changed(core.GENERATED + '/ConsumerLocks.lean', src)
+
+
 def kind_code(c) -> int:
     """state category of a descriptor / state container (same dispatch as DescriptorTransaction._get_states_update)"""
     g = lambda n: getattr(c, n, False)  # noqa: E731
@@ -206,6 +299,7 @@ class Capture:
     ctx: list
     ctx_vg: tuple
     psnap: dict = None    # canonical provider snapshot at capture time
+    live_wires: list = None  # wire indices of the transaction that was committed while the GetMdib request was being answered
 
 
 @dataclasses.dataclass
@@ -634,10 +728,40 @@ class HistoryRecorder:
             mdib = self.w.provider.mdib
             self.hist.pcores[i] = (self.hist.abs.vg(mdib.mdib_version_group), abstract_tables(mdib, self.hist.abs))
 
-    def capture(self):
+    def capture(self, commit_during=None):
+        """GetMdib / GetContextStates through the real provider handlers.
+        commit_during = a transaction function: it is committed while the GetMdib request is being answered, right after
+        the handler took its snapshot of the mdib (reconstruct_mdib*) and before it builds the response; the reports of
+        that transaction are `live_wires` of the capture (for the consumer they are notifications in flight)."""
         h = self.hist
-        cap = self.w.capture(h.abs, self.n_tx - 1, len(h.wire))
-        cap.psnap = self.w.lb.snapshot(self.w.provider.mdib)
+        mdib = self.w.provider.mdib
+        tx_before, wire_before = self.n_tx - 1, len(h.wire)
+        if commit_during is None:
+            cap = self.w.capture(h.abs, tx_before, wire_before)
+            cap.psnap = self.w.lb.snapshot(mdib)
+        else:
+            box = {}
+
+            def wrap(orig):
+                def during_request(*a, **k):
+                    res = orig(*a, **k)
+                    if not box:
+                        box['psnap'] = self.w.lb.snapshot(mdib)
+                        try:
+                            box['wires'] = self.tx(commit_during)
+                        except Exception as ex:  # noqa: BLE001
+                            box['error'] = ex
+                    return res
+                return during_request
+            with mock.patch.object(mdib, 'reconstruct_mdib_with_context_states', wrap(mdib.reconstruct_mdib_with_context_states)), \
+                    mock.patch.object(mdib, 'reconstruct_mdib', wrap(mdib.reconstruct_mdib)):
+                cap = self.w.capture(h.abs, tx_before, wire_before)
+            if 'error' in box or 'wires' not in box:
+                raise RuntimeError(f'transaction during GetMdib failed: {box.get("error")!r}')
+            cap.psnap = box['psnap']
+            cap.live_wires = box['wires']
+            if self.count:
+                self.count('capture:commit-during-GetMdib')
         h.captures.append(cap)
         return len(h.captures) - 1
 
@@ -702,9 +826,15 @@ def gen_history(world: World, rng, n_tx: int, n_captures: int = 3, epochs: bool 
     epoch_at = {}
     if epochs and n_tx >= 4 and rng.random() < 0.5:
         epoch_at[rng.randrange(2, n_tx)] = rng.choice(['seq', 'seq', 'inst', 'seq+ver'])
+    live_at = rng.choice(sorted(capture_at)) if capture_at and rng.random() < 0.5 else None
     for i in range(n_tx):
         if i in epoch_at:
             rec.epoch_change(epoch_at[i], rng)
+        if i == live_at and i not in epoch_at:
+            # this transaction is committed while a GetMdib request is being answered (single-state kinds: the context
+            # states may be fetched by a second request afterwards)
+            rec.capture(commit_during=getattr(gen, rng.choice(['tx_metric', 'tx_alert', 'tx_component', 'tx_operational', 'tx_rt'])))
+            continue
         rec.tx(gen.any)
         if i in capture_at:
             rec.capture()
@@ -742,10 +872,13 @@ def gen_schedule(hist: History, rng, count=None):
             later = [j for j, c in enumerate(caps) if c.wire_len >= cap.wire_len and c.snap.vg[1] == cap.snap.vg[1]]
             ctx_idx = rng.choice(later)
         during = during if (style in ('inflight', 'chaos') or rng.random() < 0.3) else []
+        if cap.live_wires and rng.random() < 0.7:
+            during = list(range(lo, cap.wire_len)) + list(cap.live_wires)   # as it happened: committed during the request
+            ctx_idx = cap_idx
         nxt = max([cap.wire_len] + [i + 1 for i in during])
         if rng.random() < 0.2 and nxt < n and hist.reports[nxt].vg[1:] == cap.snap.vg[1:]:
             # forced interleaving of a notification thread with reload_all at the buffer lock of the pre-check
-            return ('race', cap_idx, ctx_idx, during, nxt, rng.choice(['before-lock', 'in-lock']))
+            return ('race', cap_idx, ctx_idx, during, nxt, rng.choice(['before-lock', 'in-lock', 'after-release']))
         return ('reload', cap_idx, ctx_idx, during)
 
     first = inflight(c0)
@@ -940,6 +1073,43 @@ class SchedLock:
 
     def __exit__(self, *exc):
         self.real.release()
+        if self.variant == 'after-release' and self.slow is not None and threading.current_thread() is not self.slow:
+            # the loader (reload_all) has just left its buffer-lock section: window for a complete notification delivery
+            cb, self.on_other_acquired = self.on_other_acquired, None
+            if cb is not None:
+                cb()
+        return False
+
+
+class MdibLockProxy:
+    """Traced replacement of ConsumerMdib.mdib_lock (re-entrant): reports when the notification thread has to wait for the
+    lock and holds it back until the harness has observed the consumer."""
+
+    def __init__(self, real, sched: SchedLock):
+        self.real = real
+        self.sched = sched
+        self.waiting = threading.Event()
+
+    def acquire(self, *a, **k):
+        return self.real.acquire(*a, **k)
+
+    def release(self):
+        self.real.release()
+
+    def __enter__(self):
+        s = self.sched
+        if s.slow is not None and s.variant == 'after-release' and threading.current_thread() is s.slow:
+            if not self.real.acquire(False):
+                self.waiting.set()
+                if not s.release.wait(s.TIMEOUT):
+                    raise RuntimeError('forced schedule: notification thread was never released')
+                self.real.acquire()
+        else:
+            self.real.acquire()
+        return self
+
+    def __exit__(self, *exc):
+        self.real.release()
         return False
 
 
@@ -965,6 +1135,8 @@ class Runner:
         self._wrap_handlers()
         self.sched_lock = SchedLock(self.mdib._buffered_notifications_lock)  # noqa: SLF001
         self.mdib._buffered_notifications_lock = self.sched_lock  # noqa: SLF001
+        self.mdib_lock_proxy = MdibLockProxy(self.mdib.mdib_lock, self.sched_lock)
+        self.mdib.mdib_lock = self.mdib_lock_proxy
         self.lines = []       # model input
         self.outs = []        # canonical implementation output per model input line
         self.prev = ({}, {}, {})
@@ -1113,12 +1285,24 @@ class Runner:
                 runner.outs.append(fmt_line(runner.mode(), runner.vg(), len(runner.mdib._buffered_notifications), [],  # noqa: SLF001
                                             runner.prev, runner.prev))
 
+            def in_release_window():
+                # reload_all has released the buffer lock (replay done, buffer cleared); it still holds mdib_lock.
+                # A complete notification delivery runs now: it ends, or it waits for mdib_lock (then it is held back
+                # until the consumer has been observed after the load).
+                runner.mdib_lock_proxy.waiting.clear()
+                thr.start()
+                t0 = time.time()
+                while thr.is_alive() and not runner.mdib_lock_proxy.waiting.is_set() and time.time() - t0 < lock.TIMEOUT:
+                    time.sleep(0.001)
+
         def fake_get_mdib(*_a, **_k):
             runner.observe('begin')   # state initializing, tables cleared
             runner._oracle_tables('during reload')
             for i in during:
                 runner.deliver(i, inflight=True)
-            if thr is not None:
+            if thr is not None and variant == 'after-release':
+                lock.arm(thr, variant, in_release_window)
+            elif thr is not None:
                 lock.arm(thr, variant, in_lock_observed if variant == 'in-lock' else None)
                 thr.start()
                 if not lock.at_lock.wait(lock.TIMEOUT):
@@ -1158,15 +1342,22 @@ class Runner:
             self.stats['buffered'] += 1
             self._oracle_reload(cap_idx, ctx_idx, list(during) + [ri], new)
         else:
-            # reload_all is finished, the notification thread still waits in front of the buffer lock: let it go on
+            # reload_all is finished, the notification thread still waits (in front of the buffer lock / for mdib_lock)
             self._oracle_reload(cap_idx, ctx_idx, during, new)
             before_vg = self.vg()
             lock.release.set()
             thr.join(lock.TIMEOUT)
             lock.disarm()
-            old, new = self.observe('fin' + rrep.line()[3:], rk_for_watchdog=rrep.rk, touched=rrep.touched())
-            where = (f'report wire[{ri}] ({hist.wire[ri].short} v{rrep.vg[0]}) arrived while GetMdib was in flight; its thread got '
-                     f'the buffer lock only after reload_all had replayed the buffer')
+            if variant == 'after-release':
+                # the state switch happens inside the buffer-lock section: the delivery saw `initialized`, an ordinary report
+                line = rrep.line()
+                where = (f'report wire[{ri}] ({hist.wire[ri].short} v{rrep.vg[0]}) arrived right after reload_all had replayed '
+                         f'and cleared the buffer (buffer lock released, mdib_lock still held)')
+            else:
+                line = 'fin' + rrep.line()[3:]
+                where = (f'report wire[{ri}] ({hist.wire[ri].short} v{rrep.vg[0]}) arrived while GetMdib was in flight; its thread '
+                         f'got the buffer lock only after reload_all had replayed the buffer')
+            old, new = self.observe(line, rk_for_watchdog=rrep.rk, touched=rrep.touched())
             if self.mdib._buffered_notifications:  # noqa: SLF001
                 self.fail('report-lost-in-buffer-after-load',
                           f'{where}: the report was appended to the buffer of an initialized mdib (nobody replays it)')
@@ -1766,7 +1957,20 @@ def scenario_buffer_race(world, rng):
     w5 = rec.tx(gen.tx_metric)
     return rec.hist, [('race', 0, 0, [], w1[0], 'before-lock')] + [('deliver', i) for i in w1[1:] + w2 + w3] + \
         [('race', c1, c1, [], w4[0], 'in-lock')] + [('deliver', i) for i in w4[1:] + w5] + \
-        [('race', c1, c1, w4, w5[0], 'before-lock')] + [('deliver', i) for i in w5[1:]]
+        [('race', c1, c1, w4, w5[0], 'before-lock')] + [('deliver', i) for i in w5[1:]] + \
+        [('race', c1, c1, [], w4[0], 'after-release')] + [('deliver', i) for i in w4[1:] + w5]
+
+
+def scenario_commit_during_getmdib(world, rng):
+    """GetMdib answered by the real provider handler while a transaction commits (after the handler took its snapshot):
+    the answer has to carry the version of its content; the reports of that transaction are in flight at the consumer"""
+    gen = TxGen(world, rng)
+    rec = HistoryRecorder(world)
+    rec.tx(gen.tx_metric)
+    c1 = rec.capture(commit_during=gen.tx_metric)
+    live = rec.hist.captures[c1].live_wires
+    w3 = rec.tx(gen.tx_alert)
+    return rec.hist, [('reload', c1, c1, live)] + [('deliver', i) for i in w3]
 
 
 def scenario_duplicates_announce_nothing(world, rng):
@@ -1779,7 +1983,7 @@ def scenario_duplicates_announce_nothing(world, rng):
     return rec.hist, [('reload', 0, 0, [])] + [('deliver', i) for j in w for i in (j, j)]
 
 
-SCENARIOS = (scenario_ctx_answer_newer, scenario_buffer_race, scenario_duplicates_announce_nothing, scenario_context_delete_heals, scenario_dup_create, scenario_alert_source, scenario_inflight_same_version,
+SCENARIOS = (scenario_ctx_answer_newer, scenario_buffer_race, scenario_commit_during_getmdib, scenario_duplicates_announce_nothing, scenario_context_delete_heals, scenario_dup_create, scenario_alert_source, scenario_inflight_same_version,
              scenario_context_keys, scenario_orphan_state)
 
 
